@@ -21,6 +21,8 @@ MaxIter = %d
 InitCounter = "%s"
 MaskUpTo = "%s"
 TimeBase = "%s"
+OnRestart = "%s"
+MaxCalls = %d
 SPECIFICATION Spec
 %s
 """
@@ -56,14 +58,18 @@ PROPERTY MonitorAgrees
 def mc_runs(tier):
     q = tier == "quick"
     return [
-        dict(module="Rar", tag="MC_Rar", cfg=RAR_CFG % (((5, 2, 2, 3, 9) if q else (7, 3, 3, 3, 12)) + ("period-1", "new", "own", RAR_PROPS))),
+        dict(module="Rar", tag="MC_Rar", cfg=RAR_CFG % (((5, 2, 2, 3, 9) if q else (7, 3, 3, 3, 12)) + ("period-1", "new", "own", "reset", 1, RAR_PROPS))),
+        # chained solve calls on the returned generator (Restart action)
+        dict(module="Rar", tag="MC_Rar_restart", cfg=RAR_CFG % (((4, 2, 2, 3, 6) if q else (5, 2, 2, 3, 8)) + ("period-1", "new", "own", "reset", 2, RAR_PROPS))),
+        dict(module="Rar", tag="MC_Rar_witness_stale_counter", cfg=RAR_CFG % (4, 2, 1, 3, 5, "period-1", "new", "own", "keep", 2, "PROPERTY StepsExactlyOnSchedule\n"),
+             expect=("fail", "StepsExactlyOnSchedule"), workers=4),
         dict(module="RarStore", tag="MC_RarStore", cfg=STORE_CFG % ((5, 2, 2, 3, 1, 2, 2, 7) if q else (5, 3, 2, 3, 2, 2, 3, 8)), timeout=1500),
         # regression witnesses of the deviations found in (and repaired on) the pinned tree
-        dict(module="Rar", tag="MC_Rar_witness_zero", cfg=RAR_CFG % (4, 2, 2, 3, 8, "zero", "new", "own", "PROPERTY StepsExactlyOnSchedule\n"),
+        dict(module="Rar", tag="MC_Rar_witness_zero", cfg=RAR_CFG % (4, 2, 2, 3, 8, "zero", "new", "own", "reset", 1, "PROPERTY StepsExactlyOnSchedule\n"),
              expect=("fail", "StepsExactlyOnSchedule"), workers=4),
-        dict(module="Rar", tag="MC_Rar_witness_lag", cfg=RAR_CFG % (4, 2, 2, 3, 8, "period-1", "old", "own", "INVARIANT ActiveCount\n"),
+        dict(module="Rar", tag="MC_Rar_witness_lag", cfg=RAR_CFG % (4, 2, 2, 3, 8, "period-1", "old", "own", "reset", 1, "INVARIANT ActiveCount\n"),
              expect=("fail", "ActiveCount"), workers=4),
-        dict(module="Rar", tag="MC_Rar_witness_base", cfg=RAR_CFG % (4, 2, 2, 3, 8, "period-1", "new", "space", "PROPERTY OnlyInactiveOverwritten\n"),
+        dict(module="Rar", tag="MC_Rar_witness_base", cfg=RAR_CFG % (4, 2, 2, 3, 8, "period-1", "new", "space", "reset", 1, "PROPERTY OnlyInactiveOverwritten\n"),
              expect=("fail", "OnlyInactiveOverwritten"), workers=4),
     ]
 
@@ -112,6 +118,14 @@ def cases(tier, seed):
     # refinement driven by a SYSTEM loss (two equations of opposite sign sharing one unknown)
     sysl = [dict(c, sys=True, ret="vec") for k, c in enumerate(out) if k % (11 if q else 4) == 0 and c.get("ret") != "vec2"]
     out += sysl
+    # chained training calls: the recorded history is a second call fed with the generator returned by a first call of
+    # `resume` iterations (stopped inside / at the end of a period, before / after the start iteration)
+    res = []
+    for k, c in enumerate(out):
+        if k % (5 if q else 2) == 0 and not c.get("sys"):
+            for r in ((1 + k % 5,) if q else (1 + k % 5, 2 + (k // 2) % 6)):
+                res.append(dict(c, resume=r))
+    out += res
     # end-to-end through jinns.solve (hooks H1 + H2)
     e2e = [c for k, c in enumerate(out) if k % (9 if q else 3) == 0]
     out += [dict(c, mode="solve") for c in e2e]
@@ -135,8 +149,12 @@ def run(pid, tier, seed, assumptions, rule):
                 core.tlc_must_fail(r, m["tag"], m["expect"][1])
             mc_info.append(dict(run=m["tag"], distinct=r.distinct, generated=r.generated, depth=r.depth,
                                 expect=m.get("expect", "pass"), errors=r.errors[:1], wall_s=round(r.wall, 1)))
+        from .. import repotrace
+        fut = repotrace.start(tier, rar=True)
         cfgs = cases(tier, seed)
         traces = core.run_drivers("harness.drv_rar:run_case", cfgs)
+        repo_trs, repo_line = repotrace.rar_traces(fut)
+        traces = traces + repo_trs
         crashed = [t for t in traces if "tb" in t]
         if crashed:
             raise core.MachineryError("driver crashed: " + crashed[0]["tb"])
@@ -187,6 +205,7 @@ def run(pid, tier, seed, assumptions, rule):
             exhaustive=True, model_checking=mc_info, traces_total=len(traces), traces_skipped=len(skipped),
             trace_events=sum(len(t["ev"]) for t in live), refinement_steps_observed=steps_seen, traces_reaching_capacity=full_seen,
             traces_through_solve=sum(1 for t in live if t["cfg"].get("mode") == "solve"), traces_rejected=len(rej),
+            traces_from_repo_tests=sum(1 for t in live if t["cfg"].get("src") == "repo_tests"), repo_tests_pytest=repo_line,
             known_finding_hits=n_known, binding_selftests_rejected=nself, rule=rule)
         core.write_evidence(pid, tier, seed, "model_checking", cov, assumptions, time.time() - t0, n_new)
         print(f"{pid} [{tier}] MC states={states} traces={len(live)} accepted={acc} rejected={len(rej)} (new={n_new} known={n_known}) "
